@@ -25,6 +25,8 @@ func c02Leaves() []c02leafSpec {
 		ls = append(ls, c02leafSpec{t, "fn1", "none", ""}, c02leafSpec{t, "fn2", "col", ""})
 	}
 	// like/ilike kernels inside clause contexts (pattern semantics themselves: C18)
+	// arguments that every non-null cell satisfies (nulls still never match)
+	ls = append(ls, c02leafSpec{"enum", "in", "all", ""}, c02leafSpec{"enum", "like", "all", ""}, c02leafSpec{"enum", "ilike", "all", ""}, c02leafSpec{"string", "like", "all", ""})
 	ls = append(ls, c02leafSpec{"string", "like", "pat", ""}, c02leafSpec{"string", "ilike", "pat", ""}, c02leafSpec{"enum", "like", "pat", ""}, c02leafSpec{"enum", "ilike", "pat", ""})
 	return ls
 }
